@@ -133,7 +133,7 @@ func (s *Sim) EnableYields(tape []int) {
 	simyield.Set(func() {
 		i := n.Add(1) - 1
 		us := tape[int(i%int64(len(tape)))]
-		if us <= 0 {
+		if us <= 0 || simyield.Held.Load() > 0 {
 			return
 		}
 		if us > 10_000_000 {
